@@ -110,8 +110,9 @@ theorem isHalted_step (cfg : Cfg) (p : List Instr) (σ : SSt) (h : isHalted p σ
   · cases h
 
 /-- **soundness of the per-resolver check** -/
-theorem checkResolver_sound (p : List Instr) (need : Nat → List Isa) (h : checkResolver p need = true)
-    (cfg : Cfg) (hc : Consistent cfg) (hv : Conventions cfg) :
+theorem checkResolver_sound (p : List Instr) (need : Nat → List Isa) (minBits : List Bit)
+    (h : checkResolver p need minBits = true)
+    (cfg : Cfg) (hc : Consistent cfg) (hv : Conventions cfg) (hmin : ∀ b ∈ minBits, bitSet cfg b = true) :
     ∃ s, select p cfg = some (.sym s) ∧ ∀ i ∈ need s, Avail cfg i := by
   unfold checkResolver at h
   cases hp : paths p (4 * p.length) s0 [] with
@@ -136,8 +137,12 @@ theorem checkResolver_sound (p : List Instr) (need : Nat → List Isa) (h : chec
         · intro i hi b hb
           simp only [List.all_eq_true] at hcell
           have := hcell i hi b hb
-          have hmem : b ∈ closure allRules 8 (knownOnes r.1) := by simpa using this
-          exact closure_sound cfg allRules (rulesHold_append hc hv) 8 _ (knownOnes_sound cfg r.1 hall) b hmem
+          have hmem : b ∈ closure allRules 8 (minBits ++ knownOnes r.1) := by simpa using this
+          refine closure_sound cfg allRules (rulesHold_append hc hv) 8 _ ?_ b hmem
+          intro b' hb'
+          rcases List.mem_append.mp hb' with h1 | h1
+          · exact hmin b' h1
+          · exact knownOnes_sound cfg r.1 hall b' h1
       | fld f m => cases hcell
       | const w => cases hcell
       | junk => cases hcell
